@@ -74,7 +74,12 @@ def main():
         t.join()
     shutil.rmtree(BASE, ignore_errors=True)
     sh("git", "-C", REPO, "worktree", "prune")
-    missed = [i for i, ln in results.items() if "VIOLATION" not in ln]
+    import json
+    neutral = [os.path.basename(d) for d in dirs
+               if json.load(open(os.path.join(VERIF, d, "meta.json"))).get("neutralised")]
+    missed = [i for i, ln in results.items() if "VIOLATION" not in ln and i not in neutral]
+    if neutral:
+        print("== neutralised by a later repair (not counted): %s" % neutral)
     weak = [i for i, ln in results.items() if "no-failing-input-found" in ln]
     print("== %d changes, %d not caught %s, %d without a failing input %s" % (len(results), len(missed), missed, len(weak), weak))
     return 1 if missed else 0
